@@ -574,14 +574,25 @@ fn default_name(p: &Proto) -> Vec<u8> {
     }
 }
 
+/// Names of *templates* stay distinct from each other under every name kind (records that share a
+/// QNAME are one template by definition, so two templates with one name would be a four-segment
+/// template with inconsistent mate fields — outside the statement). Unpaired records may collide.
 fn name_of(kind: NameKind, p: &Proto) -> Option<Vec<u8>> {
+    let t: Vec<u8> = match p.template {
+        Some(t) => format!("t{t}").into_bytes(),
+        None => Vec::new(),
+    };
     match kind {
         NameKind::Default => Some(default_name(p)),
         NameKind::Missing => None,
-        NameKind::Long => Some(vec![b'L'; 254]),
-        NameKind::Punct => Some(b"x!#$%&'()+,-./:;<=>?[]^_`{|}~".to_vec()),
-        NameKind::Numeric => Some(b"1".to_vec()),
-        NameKind::SameAsR0 => Some(b"r0".to_vec()),
+        NameKind::Long => {
+            let mut n = t.clone();
+            n.resize(254, b'L');
+            Some(n)
+        }
+        NameKind::Punct => Some([&b"x!#$%&'()+,-./:;<=>?[]^_`{|}~"[..], &t].concat()),
+        NameKind::Numeric => Some(if t.is_empty() { b"1".to_vec() } else { t[1..].to_vec() }),
+        NameKind::SameAsR0 => Some([&b"r0"[..], &t].concat()),
     }
 }
 
